@@ -260,6 +260,13 @@ func (a *Assembly) Close() {
 
 var reqID uint64
 
+// QueryCtx runs a prepared context (any protocol) through the hook and handler.
+func (a *Assembly) QueryCtx(pctx *proxy.DNSContext) (beforeErr, err error) {
+	reqID++
+	pctx.RequestID = reqID
+	return a.Server.VerifHandle(pctx)
+}
+
 // Query runs one request through the pre-request hook and the handler.
 func (a *Assembly) Query(name string, qtype uint16, from string, proto proxy.Proto) (pctx *proxy.DNSContext, beforeErr, err error) {
 	reqID++
